@@ -93,6 +93,52 @@ def _facts_under(run, F, fn, g, site, edge_ok):
     return out
 
 
+def _byte_relay(P, D, fn, lf, loop, member):
+    """A loop that relays a byte sequence one (index, byte) exchange at a time: -> (sequence text X or None, iterated expression, message ok?)"""
+    sp = fn
+    it = lf.deep(loop.iter)
+    # the sequence iterated and how index / byte are obtained from it
+    X = idx = byte = None
+    body_calls = [c for st_ in loop.body for c in ast.walk(st_) if isinstance(c, ast.Call) and call_name(c) == "_send_command"]
+    if isinstance(it, ast.Call) and norm(it.func) == "range" and len(it.args) == 1 and isinstance(it.args[0], ast.Call) and norm(it.args[0].func) == "len" \
+            and isinstance(loop.target, ast.Name):
+        X, idx = _strip(norm(it.args[0].args[0])), loop.target.id
+        byte = ("index", idx)
+    elif isinstance(it, ast.Call) and norm(it.func) == "enumerate" and len(it.args) == 1 and isinstance(loop.target, ast.Tuple) and len(loop.target.elts) == 2 \
+            and all(isinstance(e, ast.Name) for e in loop.target.elts):
+        X, idx = _strip(norm(it.args[0])), loop.target.elts[0].id
+        byte = ("name", loop.target.elts[1].id)
+    elif isinstance(it, ast.Call) and norm(it.func) == "zip" and len(it.args) == 2 and isinstance(loop.target, ast.Tuple) and len(loop.target.elts) == 2 \
+            and all(isinstance(e, ast.Name) for e in loop.target.elts) and isinstance(it.args[0], ast.Call) and norm(it.args[0].func) == "range" \
+            and len(it.args[0].args) == 1 and _strip(norm(it.args[0].args[0])) == _strip(f"len({norm(it.args[1])})"):
+        X, idx = _strip(norm(it.args[1])), loop.target.elts[0].id
+        byte = ("name", loop.target.elts[1].id)
+    oks = False
+    if len(body_calls) == 1 and len(body_calls[0].args) == 2 and X is not None:
+        c = body_calls[0]
+        m_ = P.const_eval(c.args[0], sp.module, cls=D) if True else None
+        # locals built inside the loop body just before the exchange (`payload = bytes([i, x[i]])`) stand for their expressions
+        body_ok = isinstance(loop.body[-1], ast.Expr) and loop.body[-1].value is c
+        sub_ = {}
+        for st_ in loop.body[:-1]:
+            if isinstance(st_, ast.Assign) and len(st_.targets) == 1 and isinstance(st_.targets[0], ast.Name) and st_.targets[0].id not in sub_ \
+                    and st_.targets[0].id not in (idx, byte[1]) \
+                    and all(norm(x.func) in ("bytes", "len", "int") for x in ast.walk(st_.value) if isinstance(x, ast.Call)):
+                from sa.normalize import _ConstSub
+                sub_[st_.targets[0].id] = _ConstSub(dict(sub_)).visit(copy.deepcopy(st_.value)) if sub_ else st_.value
+            else:
+                body_ok = False
+        a1_ = c.args[1]
+        if sub_:
+            from sa.normalize import _ConstSub
+            a1_ = _ConstSub(sub_).visit(copy.deepcopy(a1_))
+        payload = lf.deep(a1_, stop=(idx,) + ((byte[1],) if byte and byte[0] == "name" else ()))
+        xs_ = norm(ast.Subscript(value=ast.parse(X, mode="eval").body, slice=ast.Name(id=idx, ctx=ast.Load()), ctx=ast.Load()))
+        wantp = f"bytes([{idx}, {xs_}])" if byte[0] == "index" else f"bytes([{idx}, {byte[1]}])"
+        oks = isinstance(m_, EnumMember) and m_.name == member and _strip(norm(payload)) == _strip(wantp) and body_ok
+    return X, it, oks
+
+
 def pin_relay(run, rid="R6"):
     """The PIN handed to the Ledger dongle class reaches the device whole: shared by C09 / C10 / C18."""
     P, A = run.P, run.A
@@ -119,50 +165,11 @@ def pin_relay(run, rid="R6"):
         p_ = lf.pc.get("PREP")
         n_cases += 1
         want_x = _strip(f"bytes([len({pinp})]) + {pinp}") if p_ else pinp
-        it = lf.deep(loop.iter)
-        # the sequence iterated and how index / byte are obtained from it
-        X = idx = byte = None
-        body_calls = [c for st_ in loop.body for c in ast.walk(st_) if isinstance(c, ast.Call) and call_name(c) == "_send_command"]
-        if isinstance(it, ast.Call) and norm(it.func) == "range" and len(it.args) == 1 and isinstance(it.args[0], ast.Call) and norm(it.args[0].func) == "len" \
-                and isinstance(loop.target, ast.Name):
-            X, idx = _strip(norm(it.args[0].args[0])), loop.target.id
-            byte = ("index", idx)
-        elif isinstance(it, ast.Call) and norm(it.func) == "enumerate" and len(it.args) == 1 and isinstance(loop.target, ast.Tuple) and len(loop.target.elts) == 2 \
-                and all(isinstance(e, ast.Name) for e in loop.target.elts):
-            X, idx = _strip(norm(it.args[0])), loop.target.elts[0].id
-            byte = ("name", loop.target.elts[1].id)
-        elif isinstance(it, ast.Call) and norm(it.func) == "zip" and len(it.args) == 2 and isinstance(loop.target, ast.Tuple) and len(loop.target.elts) == 2 \
-                and all(isinstance(e, ast.Name) for e in loop.target.elts) and isinstance(it.args[0], ast.Call) and norm(it.args[0].func) == "range" \
-                and len(it.args[0].args) == 1 and _strip(norm(it.args[0].args[0])) == _strip(f"len({norm(it.args[1])})"):
-            X, idx = _strip(norm(it.args[1])), loop.target.elts[0].id
-            byte = ("name", loop.target.elts[1].id)
+        X, it, oks = _byte_relay(P, D, sp, lf, loop, "SEND_PIN")
         okx = X == want_x
         run.check(rid, okx, f"[prepend_length={bool(p_)}] the loop runs over every byte of {'length | pin' if p_ else 'the pin'}", key=f"_send_pin|sequence|{bool(p_)}", where=sp.loc(loop),
                   message=f"with prepend_length={bool(p_)} _send_pin iterates `{norm(it)[:70]}` (sequence `{X}`); expected every index of `{want_x}`: bytes of the PIN "
                           "(the last one, typically) never reach the device, which then rejects or installs a truncated PIN")
-        oks = False
-        if len(body_calls) == 1 and len(body_calls[0].args) == 2 and X is not None:
-            c = body_calls[0]
-            m_ = P.const_eval(c.args[0], sp.module, cls=D) if True else None
-            # locals built inside the loop body just before the exchange (`payload = bytes([i, x[i]])`) stand for their expressions
-            body_ok = isinstance(loop.body[-1], ast.Expr) and loop.body[-1].value is c
-            sub_ = {}
-            for st_ in loop.body[:-1]:
-                if isinstance(st_, ast.Assign) and len(st_.targets) == 1 and isinstance(st_.targets[0], ast.Name) and st_.targets[0].id not in sub_ \
-                        and st_.targets[0].id not in (idx, byte[1]) \
-                        and all(norm(x.func) in ("bytes", "len", "int") for x in ast.walk(st_.value) if isinstance(x, ast.Call)):
-                    from sa.normalize import _ConstSub
-                    sub_[st_.targets[0].id] = _ConstSub(dict(sub_)).visit(copy.deepcopy(st_.value)) if sub_ else st_.value
-                else:
-                    body_ok = False
-            a1_ = c.args[1]
-            if sub_:
-                from sa.normalize import _ConstSub
-                a1_ = _ConstSub(sub_).visit(copy.deepcopy(a1_))
-            payload = lf.deep(a1_, stop=(idx,) + ((byte[1],) if byte and byte[0] == "name" else ()))
-            xs_ = norm(ast.Subscript(value=ast.parse(X, mode="eval").body, slice=ast.Name(id=idx, ctx=ast.Load()), ctx=ast.Load()))
-            wantp = f"bytes([{idx}, {xs_}])" if byte[0] == "index" else f"bytes([{idx}, {byte[1]}])"
-            oks = isinstance(m_, EnumMember) and m_.name == "SEND_PIN" and _strip(norm(payload)) == _strip(wantp) and body_ok
         run.check(rid, oks, f"[prepend_length={bool(p_)}] each byte is sent as SEND_PIN | index | byte", key=f"_send_pin|message|{bool(p_)}", where=sp.loc(loop),
                   message=f"_send_pin's loop body is `{'; '.join(norm(x)[:60] for x in loop.body)}`; expected one SEND_PIN exchange carrying (index, byte at that index)")
     run.floor(rid, "_send_pin cases (with / without the length prefix)", n_cases, 2)
@@ -180,11 +187,171 @@ def pin_relay(run, rid="R6"):
                           f"{'after a length byte' if wantp else 'as a plain string'} for this command")
 
 
+def onboard_carried_out(run, rid="R7"):
+    """The dongle classes' onboard(seed, pin): what is sent and when it reports success."""
+    P, A = run.P, run.A
+    from sa.decide import Walker, cmp_parts, completions, subst
+    from sa.layout import Layout
+    run.rule(rid, "Onboarding is carried out: HSM2Dongle.onboard(seed, pin) completes only for a bytes seed of ONBOARDING.SEED_LENGTH bytes, sends SEED | u8(i) | u8(seed[i]) "
+             "for every i in order, then the PIN (length-prefixed, R6), then WIPE, and returns True iff the WIPE answer's byte 1 is 2 (raises otherwise); "
+             "HSM2DongleSGX.onboard completes only for such a seed and a bytes pin, sends SGX_ONBOARD | u8(0) | seed | pin once and returns True iff the answer's "
+             "byte 2 is 1 (raises otherwise). Nothing else is decided; no path returns without the exchange.")
+    LD = P.cls("ledger.hsm2dongle.HSM2Dongle")
+    SD = P.cls("sgx.hsm2dongle.HSM2DongleSGX")
+    for D, sgx in ((LD, False), (SD, True)):
+        fn = P.method(D, "onboard")
+        run.require(fn.cls is D or not sgx, "HSM2DongleSGX.onboard vanished")
+        g = A.cfg(fn, D)
+        seedp, pinp = fn.params[1], fn.params[2]
+        state = {"W": None}
+
+        def resolve(e):
+            b = state["W"]._bind or {}
+            for _ in range(6):
+                names = {n.id for n in ast.walk(e) if isinstance(n, ast.Name)}
+                hit = {k: v for k, v in b.items() if k in names}
+                if not hit:
+                    break
+                e = subst(e, hit)
+            return e
+
+        def atom(e, fn=fn, D=D, sgx=sgx, seedp=seedp, pinp=pinp):
+            cp = cmp_parts(e)
+            if cp is None:
+                return None
+            l, op, r = cp
+            lt, rt = _strip(norm(l)), _strip(norm(r))
+            if op in ("==", "!=") and lt == f"type({seedp})" and rt == "bytes":
+                return ("SEED_BYTES", op == "==")
+            if op in ("==", "!=") and lt == f"type({pinp})" and rt == "bytes":
+                return ("PIN_BYTES", op == "==")
+            if op in ("==", "!=") and lt == f"len({seedp})" and try_fold(P, r, fn, D) == try_fold(P, ast.parse("self.ONBOARDING.SEED_LENGTH", mode="eval").body, fn, D):
+                return ("SEED_LEN", op == "==")
+            x = resolve(l)
+            if isinstance(x, ast.Subscript) and isinstance(x.value, ast.Call) and call_name(x.value) == "_send_command" and op in ("==", "!="):
+                m_ = P.const_eval(x.value.args[0], fn.module, cls=D) if x.value.args else None
+                oki, iv = try_fold(P, x.slice, fn, D)
+                okr, rv = try_fold(P, r, fn, D)
+                if isinstance(m_, EnumMember) and oki and okr and (m_.name, unwrap(iv), unwrap(rv)) in (("WIPE", 1, 2), ("SGX_ONBOARD", 2, 1)):
+                    return ("DONE", op == "==")
+            return None
+        pre = ["SEED_BYTES", "SEED_LEN"] + (["PIN_BYTES"] if sgx else [])
+        tag = f"{D.name}.onboard"
+
+        def sends_of(lf):
+            return [c_ for k_, st_, v_ in lf.effects if k_ in ("assign", "expr") for c_ in ast.walk(st_) if isinstance(c_, ast.Call) and call_name(c_) == "_send_command"]
+
+        def tail(lf, what_sent):
+            """a leaf at the end of the function: True iff DONE, raise otherwise"""
+            for val in completions({k: b for k, b in lf.pc.items() if k == "DONE"}, ["DONE"]):
+                want = "return True" if val["DONE"] else "raise"
+                got = lf.kind
+                if lf.kind == "return":
+                    v = lf.node.ast.value
+                    got = f"return {norm(lf.deep(v)) if v is not None else None}"
+                run.check(rid, got == want and "DONE" in lf.pc, f"{tag}: [device {'confirmed' if val['DONE'] else 'did not confirm'}] -> {want}", key=f"{tag}|outcome|{val['DONE']}",
+                          where=fn.loc(lf.node.ast) if lf.node.ast is not None else fn.loc(),
+                          message=f"{tag}: after {what_sent}, when the device {'confirmed' if val['DONE'] else 'did not confirm'} the onboarding the method does `{got}`, expected "
+                                  f"`{want}`: the operator is told the device was onboarded when it was not (or the other way round)")
+        W = Walker(A, fn, D, atom, stop_at_for=True, max_leaves=128)
+        state["W"] = W
+        n_ok = 0
+        for lf in W.walk(g.entry):
+            where = fn.loc(lf.node.ast) if lf.node.ast is not None else fn.loc()
+            unknown = sorted(k[1:] for k in lf.pc if isinstance(k, str) and k.startswith("?"))
+            run.check(rid, not unknown, f"{tag} decides on its argument checks and the device's confirmation only", key=f"{tag}|extra|{';'.join(unknown)[:50]}", where=where,
+                      message=f"{tag} decides on `{'`, `'.join(unknown)[:100]}`: onboarding would be refused (or reported) on something else than the documented conditions")
+            if unknown:
+                continue
+            state["W"]._bind = lf.bind
+            bad = [a for a in pre if lf.pc.get(a) is False]
+            if lf.kind == "raise" and not sends_of(lf):
+                run.check(rid, bool(bad), f"{tag}: refuses only malformed arguments", key=f"{tag}|refusal|{sorted(lf.pc.items())}"[:120], where=where,
+                          message=f"{tag} raises before sending anything although the seed{' and the pin' if sgx else ''} are well-formed (conditions met: {sorted(lf.pc.items())})")
+                continue
+            run.check(rid, not bad and all(lf.pc.get(a) is True for a in pre), f"{tag}: goes on only with well-formed arguments", key=f"{tag}|precondition|{lf.kind}", where=where,
+                      message=f"{tag} goes on to the device without having established {[a for a in pre if lf.pc.get(a) is not True]} (a seed of the wrong size / type)")
+            if not sgx:
+                if lf.kind == "stop" and isinstance(lf.node.ast, ast.For):
+                    n_ok += 1
+                    loop = lf.node.ast
+                    X, it, oks = _byte_relay(P, D, fn, lf, loop, "SEED")
+                    run.check(rid, X == seedp and oks and not sends_of(lf), f"{tag}: every seed byte is sent as SEED | index | byte", key=f"{tag}|seed-loop", where=fn.loc(loop),
+                              message=f"{tag}: the seed loop iterates `{norm(it)[:60]}` with body `{'; '.join(norm(x)[:60] for x in loop.body)}`; expected one SEED exchange per byte of "
+                                      f"`{seedp}` carrying (index, byte): the device would be onboarded with another seed than the one generated (and backed up)")
+                    # after the loop: the PIN, then WIPE, then the verdict
+                    ex = [n for n in g.nodes if n.kind in ("T", "F") and n.cond is lf.node and n.note == "exhausted"]
+                    run.require(len(ex) == 1, f"{tag}: seed loop exit edge not found")
+                    W2 = Walker(A, fn, D, atom, stop_at_for=True, max_leaves=64)
+                    state["W"] = W2
+                    for lf2 in W2.walk(ex[0]):
+                        unknown2 = sorted(k[1:] for k in lf2.pc if isinstance(k, str) and k.startswith("?"))
+                        run.check(rid, not unknown2, f"{tag}: after the seed only the device's confirmation decides", key=f"{tag}|extra-after|{';'.join(unknown2)[:50]}", where=fn.loc(),
+                                  message=f"{tag} decides on `{'`, `'.join(unknown2)[:100]}` after the seed was sent")
+                        if unknown2:
+                            continue
+                        state["W"]._bind = lf2.bind
+                        calls = [c_ for k_, st_, v_ in lf2.effects if k_ in ("assign", "expr") for c_ in ast.walk(st_) if isinstance(c_, ast.Call) and call_name(c_) in ("_send_command", "_send_pin")]
+                        seq = []
+                        for c_ in calls:
+                            if call_name(c_) == "_send_pin":
+                                seq.append("PIN")
+                            else:
+                                m_ = P.const_eval(c_.args[0], fn.module, cls=D) if c_.args else None
+                                seq.append(m_.name if isinstance(m_, EnumMember) else "?")
+                        run.check(rid, seq == ["PIN", "WIPE"], f"{tag}: seed, then the PIN, then WIPE", key=f"{tag}|sequence", where=fn.loc(),
+                                  message=f"{tag}: after the seed the exchanges are {seq}; expected the PIN and then WIPE (the firmware derives the wallet from the seed and sets the PIN at WIPE)")
+                        tail(lf2, "seed, PIN and WIPE")
+                    state["W"] = W
+                else:
+                    run.fail(rid, f"{tag}|no-seed-loop|{lf.kind}", where, f"{tag}: a path with well-formed arguments ends in `{lf.kind}` without reaching the seed loop")
+            else:
+                n_ok += 1
+                cs = sends_of(lf)
+                lay = None
+                if len(cs) == 1 and len(cs[0].args) == 2:
+                    m_ = P.const_eval(cs[0].args[0], fn.module, cls=D)
+                    L = Layout(lambda e: try_fold(P, e, fn, D))
+                    lay = (m_.name if isinstance(m_, EnumMember) else "?", L.canon(_strip(norm(lf.deep(cs[0].args[1], stop=(seedp, pinp))))))
+                run.check(rid, lay == ("SGX_ONBOARD", f"u8(0) | {seedp} | {pinp}"), f"{tag}: one exchange SGX_ONBOARD | 0 | seed | pin", key=f"{tag}|message", where=where,
+                          message=f"{tag} sends {lay if lay else [norm(c_)[:50] for c_ in cs]}; expected one SGX_ONBOARD exchange carrying u8(0) | {seedp} | {pinp}")
+                tail(lf, "the onboard exchange")
+        run.floor(rid, f"{tag}: paths that go on to the device", n_ok, 1)
+    # unlock: the verdict is the device's
+    from sa.decide import return_values
+    PVd = Prov(A)
+    for D, cmdm, exact in ((LD, "UNLOCK", None), (SD, "SGX_UNLOCK", "u8(0) | pin")):
+        fn = P.method(D, "unlock")
+        rv = return_values(A, fn, D, PVd)
+        ok = len(rv) == 1
+        why = sorted(rv)
+        if ok:
+            try:
+                e = ast.parse(next(iter(rv)), mode="eval").body
+            except SyntaxError:
+                e = None
+            ok = False
+            cp = cmp_parts(e) if e is not None else None
+            if cp is not None:
+                l, op, r = cp
+                if isinstance(l, ast.Subscript) and isinstance(l.slice, ast.Constant) and l.slice.value == 2 and isinstance(l.value, ast.Call) and call_name(l.value) == "_send_command" \
+                        and isinstance(r, ast.Constant) and (op, r.value) in (("!=", 0), (">", 0), (">=", 1)):
+                    m_ = P.const_eval(l.value.args[0], fn.module, cls=D) if l.value.args else None
+                    ok = isinstance(m_, EnumMember) and m_.name == cmdm
+                    if ok and exact is not None:
+                        L = Layout(lambda e_: try_fold(P, e_, fn, D))
+                        ok = len(l.value.args) == 2 and L.canon(_strip(norm(l.value.args[1]))) == exact.replace("pin", fn.params[1])
+        run.check(rid, ok, f"{D.name}.unlock reports the device's verdict (answer byte 2 non-zero)", key=f"{D.name}.unlock|verdict", where=fn.loc(),
+                  message=f"{D.name}.unlock returns {why[:2]}; expected `<answer to {cmdm}" + (f" carrying {exact}" if exact else "") + ">[2] != 0`: a wrong PIN would be reported as an unlocked "
+                          "device (the bring-up goes on, the admin tool says `unlocked`) or the other way round")
+
+
 def run(run):
     P, A = run.P, run.A
     F = Facts(A)
     PV = Prov(A)
     _onboard(run, F, PV)
+    onboard_carried_out(run, "R7")
     _unlock(run, F, PV)
     # "only to a device that is in bootloader mode ... is not yet onboarded / only to an onboarded device": mode and onboarded flag are the device's own
     # answers for every dongle class (rule of C09, prefix B.)
